@@ -78,8 +78,18 @@ type Result struct {
 }
 
 // Feed runs NewConn on a transport pre-loaded with stream (then EOF) and drains it.
-func Feed(stream []byte, keys []ech.Key) (res Result) {
+func Feed(stream []byte, keys []ech.Key) (res Result) { return FeedOpt(stream, keys, "") }
+
+// FeedOpt is Feed with a faulty client transport: writeFault "error" makes every transport Write fail, "short" makes it
+// accept only the first byte (the client is gone / not reading).
+func FeedOpt(stream []byte, keys []ech.Key, writeFault string) (res Result) {
 	t := memnet.New()
+	switch writeFault {
+	case "error":
+		t.WriteHook = func(p []byte) (int, error) { return 0, errors.New("injected: client write side is gone") }
+	case "short":
+		t.WriteHook = func(p []byte) (int, error) { return min(1, len(p)), errors.New("injected: short write") }
+	}
 	t.Feed(stream)
 	t.End(io.EOF)
 	res.Transport = t
